@@ -1269,8 +1269,24 @@ def rule_trie_node_type(db: ProgramDB) -> List[Instance]:
     # writer: what is stored as a child and then descended into
     defs = local_defs(ins)
     n = 0
+    # the nodes of the trie: self.cache and whatever is read out of / stored into one of them (by provenance, not by name)
+    tries: Set[str] = {"self.cache"}
+    changed = True
+    while changed:
+        changed = False
+        for a in own_nodes(ins.node):
+            if isinstance(a, ast.Assign) and len(a.targets) == 1 and isinstance(a.targets[0], ast.Name) and a.targets[0].id not in tries:
+                v = a.value
+                if unparse(v) in tries or (isinstance(v, ast.Subscript) and unparse(v.value) in tries) or \
+                        (isinstance(v, ast.Call) and call_attr(v) in ("get", "setdefault") and unparse(v.func.value) in tries):
+                    tries.add(a.targets[0].id)
+                    changed = True
+            if isinstance(a, ast.Assign) and len(a.targets) == 1 and isinstance(a.targets[0], ast.Subscript) and unparse(a.targets[0].value) in tries \
+                    and isinstance(a.value, ast.Name) and a.value.id not in tries and a.value.id not in ins.params:
+                tries.add(a.value.id)          # what is stored as a child and descended into later
+                changed = True
     for a in own_nodes(ins.node):
-        if not (isinstance(a, ast.Assign) and len(a.targets) == 1 and isinstance(a.targets[0], ast.Subscript) and "cache" in unparse(a.targets[0].value)):
+        if not (isinstance(a, ast.Assign) and len(a.targets) == 1 and isinstance(a.targets[0], ast.Subscript) and unparse(a.targets[0].value) in tries):
             continue
         v = a.value
         cands = [v] if not isinstance(v, ast.Name) else [d for d in defs.get(v.id, []) if isinstance(d, ast.AST)]
